@@ -100,6 +100,8 @@ type Client struct {
 	doneCtx           context.Context
 	ctxCancel         context.CancelFunc
 	negotiatedVersion int
+	negotiatedPlugins PluginSet
+	pluginsNegotiated bool
 
 	// startErr is the error of a Start that failed after the plugin process
 	// had been launched.
@@ -917,10 +919,12 @@ func (c *Client) Start() (addr net.Addr, err error) {
 			return addr, err
 		}
 
-		// set the Plugins value to the compatible set, so the version
-		// doesn't need to be passed through to the ClientProtocol
-		// implementation.
-		c.config.Plugins = pluginSet
+		// remember the compatible set, so the version doesn't need to be
+		// passed through to the ClientProtocol implementation. It is kept on
+		// the client: writing it into the config would make a second client
+		// built from the same ClientConfig take it for the legacy Plugins of
+		// ProtocolVersion and offer a version the host never registered.
+		c.negotiatedPlugins, c.pluginsNegotiated = pluginSet, true
 		c.negotiatedVersion = version
 		c.logger.Debug("using plugin", "version", version)
 
@@ -1012,6 +1016,16 @@ func (c *Client) loadServerCert(cert string) error {
 	c.config.TLSConfig.RootCAs = certPool
 	c.config.TLSConfig.ClientCAs = certPool
 	return nil
+}
+
+// plugins returns the plugin set to dispense from: the set registered under
+// the negotiated version, or the configured Plugins when nothing was
+// negotiated (reattach).
+func (c *Client) plugins() PluginSet {
+	if c.pluginsNegotiated {
+		return c.negotiatedPlugins
+	}
+	return c.config.Plugins
 }
 
 func (c *Client) reattach() (net.Addr, error) {
